@@ -204,10 +204,10 @@ def shards(tier):
     from ..pipelines import pipelines
 
     # "large" shards: more sources / longer inputs than Hypothesis' size distribution reaches by itself
-    large = [Shard(f"large-{name}", check, strategy=base_case(name, max_len=7, max_src=8, min_src=5, min_len=1),
+    large = [Shard(f"large-{name}", check, fuzz=0, strategy=base_case(name, max_len=7, max_src=8, min_src=5, min_len=1),
                    n=500, nontrivial=nontrivial, classify=classify, thorough_mult=15)
              for name in ("merge", "zip", "zip_longest", "chain")]
-    large += [Shard(f"large-{name}", check, strategy=base_case(name, max_len=30, min_len=12),
+    large += [Shard(f"large-{name}", check, fuzz=0, strategy=base_case(name, max_len=30, min_len=12),
                     n=300, nontrivial=nontrivial, classify=classify, thorough_mult=15)
               for name in ("islice", "batched", "tee", "cycle", "pairwise", "accumulate", "takewhile", "dropwhile")]
     large += [Shard(f"big-numbers-{i}", check, strategy=big_number_cases(), n=25, nontrivial=lambda c: True,
